@@ -80,9 +80,15 @@ pub fn run<P: Pat>(args: &Args) -> Value {
     let root = args.get("root").expect("--root");
     let runs = args.num("runs", 4);
     let iters = args.num("iters", 200);
-    let threads = args.num("threads", 3) as usize;
+    // "--threads 2,3,4": run i uses the (i mod len)-th entry
+    let tlist: Vec<usize> = args
+        .get_or("threads", "3")
+        .split(',')
+        .map(|x| x.parse().expect("--threads"))
+        .collect();
     let procs = args.flag("procs");
     let timeout = args.num("timeout", 20_000);
+    let tag = args.get_or("tag", "");
     let seed = vlib::seed_from_env();
     let mut out = TraceWriter::create(&args.get("out").expect("--out"));
     let mode = if procs { "procs" } else { "conc" };
@@ -95,8 +101,9 @@ pub fn run<P: Pat>(args: &Args) -> Value {
     let mut seeds = Rng::new(seed ^ 0xC0C0_0000 ^ ((P::NAME.as_bytes()[0] as u64) << 8) ^ (procs as u64));
 
     for run in 0..runs {
+        let threads = tlist[run as usize % tlist.len()];
         let droot = format!("{root}/{mode}{}_{run}", P::NAME);
-        let prefix = format!("c6{}{}{run}_", if procs { "p" } else { "c" }, P::NAME);
+        let prefix = format!("c6{tag}{}{}{run}_", if procs { "p" } else { "c" }, P::NAME);
         let config = util::make_config(&droot, &prefix, timeout);
         let set = cfg_set(P::NAME, false);
         let dflt = P::defaults(&config);
@@ -157,7 +164,7 @@ pub fn run<P: Pat>(args: &Args) -> Value {
         util::cleanup_domain(&config);
     }
     out.flush();
-    json!({"mode":mode,"pat":P::NAME,"runs":runs,"threads":threads,"iters":iters,"calls":calls,
+    json!({"mode":mode,"pat":P::NAME,"runs":runs,"threads":tlist,"iters":iters,"calls":calls,
            "lines":out.lines,"results":counts,"panics":panics_total,"seed":seed})
 }
 
